@@ -24,7 +24,8 @@ Proof.
 Qed.
 
 Ltac tr1 := match goal with |- context[?x =? ?y] =>
-              lazymatch x with context[Z.eqb] => fail | _ => destruct (Z.eqb_spec x y) end end.
+              lazymatch x with context[Z.eqb] => fail | _ =>
+              lazymatch y with context[Z.eqb] => fail | _ => destruct (Z.eqb_spec x y); cbv iota end end end.
 Ltac tr := unfold transp; repeat tr1; try lia.
 
 Lemma transp_invol a b w : transp a b (transp a b w) = w.
@@ -122,14 +123,14 @@ Proof.
   rewrite Forall_forall in H. apply H, Hm.
 Qed.
 
-Lemma covered_step f (wo : list Z) (ls : list (list Z)) :
+Lemma covered_step (f : Z -> Z) (wo : list Z) (ls : list (list Z)) :
   Forall (fun m => incl m wo) ls -> Forall (fun m => incl m (map f wo)) (map (map f) ls).
 Proof.
   intros H. rewrite Forall_forall in *. intros m Hm. apply in_map_iff in Hm. destruct Hm as [m0 [<- Hm0]].
   intros x Hx. apply in_map_iff in Hx. destruct Hx as [y [<- Hy]]. apply in_map. apply (H m0 Hm0), Hy.
 Qed.
 
-Lemma covered_step_g f (wo : list Z) (ops : list gate) :
+Lemma covered_step_g (f : Z -> Z) (wo : list Z) (ops : list gate) :
   Forall (fun g => incl (snd g) wo) ops -> Forall (fun g => incl (snd g) (map f wo)) (map (gmap f) ops).
 Proof.
   intros H. rewrite Forall_forall in *. intros g Hg. apply in_map_iff in Hg. destruct Hg as [g0 [<- Hg0]].
@@ -156,7 +157,8 @@ Proof.
   induction r as [|p1 r IH]; [congruence|]. intros _. destruct r as [|p2 r']; [reflexivity|].
   change (consec (p1 :: p2 :: r')) with ((p1, p2) :: consec (p2 :: r')).
   change (last (p1 :: p2 :: r') d) with (last (p2 :: r') d).
-  simpl rev. rewrite papp_app, IH by congruence. simpl. apply transp_snd.
+  change (rev ((p1, p2) :: consec (p2 :: r'))) with (rev (consec (p2 :: r')) ++ [(p1, p2)]).
+  rewrite papp_app, IH by congruence. simpl. apply transp_snd.
 Qed.
 
 (* everything the loop uses about a validated oracle answer *)
@@ -189,6 +191,32 @@ Proof.
   split; [exact Ha|]. split.
   - rewrite Ha, <- Hl, papp_last by congruence. exact He.
   - apply Forall_rev. apply chain_consec, Hc.
+Qed.
+
+Lemma last_In (r : list Z) d : r <> [] -> In (last r d) r.
+Proof.
+  induction r as [|x r IH]; [congruence|]. intros _. destruct r as [|y r']; [left; reflexivity|].
+  change (last (x :: y :: r') d) with (last (y :: r') d). right. apply IH. congruence.
+Qed.
+
+Lemma chain_nodes E : forall l a, chain E (a :: l) = true -> In a (nodes E) ->
+  forall x, In x (a :: l) -> In x (nodes E).
+Proof.
+  induction l as [|b l IH]; intros a Hc Ha x Hx.
+  - destruct Hx as [<- | []]. exact Ha.
+  - change (chain E (a :: b :: l)) with (is_edge E a b && chain E (b :: l)) in Hc.
+    apply andb_true_iff in Hc. destruct Hc as [He Hc]. destruct Hx as [<- | Hx]; [exact Ha|].
+    apply (IH b Hc); [apply (is_edge_nodes _ _ _ He) | exact Hx].
+Qed.
+
+(* a validated path joins two distinct nodes of the graph *)
+Lemma valid_path_endpoints E a b p :
+  valid_path E a b p = true -> In a (nodes E) /\ In b (nodes E) /\ a <> b.
+Proof.
+  intros H. destruct (valid_path_spec _ _ _ _ H) as [p1 [r [-> [Hl [He [Hc Hn]]]]]].
+  destruct (is_edge_nodes _ _ _ He) as [Ha Hp1].
+  assert (Hb : In b (p1 :: r)) by (rewrite <- Hl; apply last_In; congruence).
+  split; [exact Ha|]. split; [eapply chain_nodes; eauto|]. intros ->. exact (Hn Hb).
 Qed.
 
 (* ------------------------------------------------------------------ the loop *)
@@ -225,6 +253,11 @@ Definition meas_covered (wo : list Z) (ms : list (list Z)) : Prop := Forall (fun
 Lemma on_edges_app E g1 g2 : on_edges E (g1 ++ g2) = on_edges E g1 && on_edges E g2.
 Proof. unfold on_edges. apply forallb_app. Qed.
 
+Lemma on_edges_cons E g gs :
+  on_edges E (g :: gs) =
+  (match snd g with [a; b] => is_edge E a b | [] | [_] => true | _ => false end) && on_edges E gs.
+Proof. reflexivity. Qed.
+
 Lemma on_edges_swaps E sw :
   Forall (edge_pair E) sw -> on_edges E (map (fun s => mkswap (fst s) (snd s)) sw) = true.
 Proof. induction 1; simpl; [reflexivity|]. unfold edge_pair in H. rewrite H. exact IHForall. Qed.
@@ -254,10 +287,12 @@ Proof.
         apply prepend_ok in H. destruct H as [gs' [sw' [HL [-> ->]]]].
         destruct (route_spec _ _ _ _ Hv) as [Ha [Hab HF]].
         rewrite maps_wires_route in HL by exact Hrest.
+        rewrite (map_wm_route _ wo wo) in HL by apply incl_refl.
         apply IH in HL; [|apply covered_step_g; exact Hrest].
         destruct HL as [H1 H2]. split; [|apply Forall_app; split; assumption].
         rewrite <- app_assoc, on_edges_app, on_edges_swaps by exact HF.
-        simpl. rewrite map_wires_route by exact Hop. unfold gmap. simpl. rewrite Hw. simpl.
+        rewrite map_wires_route by (rewrite Hw; exact Hop).
+        rewrite andb_true_l. simpl app. rewrite on_edges_cons. unfold gmap. cbn [snd]. rewrite Hw. cbn [map].
         rewrite Hab. exact H1.
     + discriminate.
 Qed.
@@ -348,7 +383,8 @@ Section Semantics.
         cbv zeta in H. destruct (valid_path E a b (sp k a b)) eqn:Hv; [|discriminate].
         apply prepend_ok in H. destruct H as [gs' [sw' [HL [-> ->]]]].
         rewrite maps_wires_route in HL by exact Hrest.
-        rewrite map_wires_route by exact Hop.
+        rewrite map_wires_route by (rewrite Hw; exact Hop).
+        rewrite (map_wm_route _ wo wo) in HL by apply incl_refl.
         pose proof (IH _ _ _ _ _ _ _ _ _ (covered_step_g _ _ _ Hrest) HL) as IH'.
         rewrite !run_app, run_swaps, IH', act_app. f_equal.
         change (run (map (gmap (papp (wires_to_swap (sp k a b)))) (op :: rest)) (act (wires_to_swap (sp k a b)) s)
@@ -403,7 +439,7 @@ Lemma transpile_loop E sp ops ms dev r :
   r = loop E sp (length ops) 0%nat ops (wo0 ops ms dev) (process_meas dev ms).
 Proof.
   unfold transpile, wo0. intros H Hr.
-  destruct (negb (forallb _ _)); [congruence|]. destruct (existsb _ ops); [congruence|]. auto.
+  repeat match goal with H : (if ?c then _ else _) = _ |- _ => destruct c; [congruence|] end. auto.
 Qed.
 
 Lemma transpile_on_edges_lem E sp ops ms dev gs ms' wo' sw c :
@@ -413,6 +449,21 @@ Lemma transpile_on_edges_lem E sp ops ms dev gs ms' wo' sw c :
 Proof.
   intros Hd H. apply transpile_loop in H; [|discriminate]. symmetry in H.
   destruct (covered0 _ _ _ Hd). eapply loop_on_edges; eauto.
+Qed.
+
+Lemma transpile_on_edges_prop E sp ops ms dev gs ms' wo' sw c :
+  dev_covers ops ms dev ->
+  transpile E sp ops ms dev = Ok gs ms' wo' sw c ->
+  Forall (fun g => match snd g with
+                   | [] | [_] => True
+                   | [a; b] => is_edge E a b = true
+                   | _ => False end) gs /\
+  Forall (fun s => is_edge E (fst s) (snd s) = true) sw.
+Proof.
+  intros Hd H. destruct (transpile_on_edges_lem _ _ _ _ _ _ _ _ _ _ Hd H) as [H1 H2]. split; [|exact H2].
+  apply Forall_forall. intros g Hg. unfold on_edges in H1.
+  rewrite forallb_forall in H1. specialize (H1 g Hg).
+  destruct (snd g) as [|a [|b [|x l]]]; auto; discriminate.
 Qed.
 
 Definition is_inverse (f g : Z -> Z) : Prop := (forall w, g (f w) = w) /\ (forall w, f (g w) = w).
@@ -486,7 +537,7 @@ Proof.
         apply gate_ok_gmap. apply Grest, Hg0.
       - rewrite Forall_forall in *. intros g Hg. apply in_map_iff in Hg. destruct Hg as [g0 [<- Hg0]].
         simpl. intros w Hw'. apply in_map_iff in Hw'. destruct Hw' as [w0 [<- Hw0]].
-        apply papp_nodes; [exact HF|]. apply (Nrest g0 Hg0), Hw0. }
+        apply papp_nodes; [apply Forall_forall; exact HF|]. apply (Nrest g0 Hg0), Hw0. }
     match goal with |- prepend _ _ ?L <> Err => destruct L; [discriminate | congruence] end.
 Qed.
 
@@ -501,10 +552,10 @@ Proof.
   replace (forallb (fun w => memZ w (nodes E)) (tape_wires ops ms)) with true.
   2:{ symmetry. apply forallb_forall. intros w Hw. apply memZ_In. apply Hin, Hw. }
   simpl negb. cbv iota.
-  replace (existsb (fun g : gate => 2 <? Z.of_nat (length (snd g))) ops) with false.
-  2:{ symmetry. apply not_true_is_false. intros H. apply existsb_exists in H. destruct H as [g [Hg H]].
-      rewrite Forall_forall in Hok. specialize (Hok g Hg). unfold gate_ok in Hok.
-      destruct (snd g) as [|a [|b [|x l]]]; simpl in *; try lia. }
+  match goal with |- (if ?c then _ else _) <> _ => destruct c eqn:Hex end.
+  { exfalso. apply existsb_exists in Hex. destruct Hex as [g [Hg H]].
+    rewrite Forall_forall in Hok. specialize (Hok g Hg). unfold gate_ok in Hok.
+    destruct (snd g) as [|a [|b [|x l]]]; simpl in *; try lia. }
   destruct (covered0 _ _ _ Hd) as [Ho _]. unfold wo0 in Ho.
   apply loop_total; auto.
   rewrite Forall_forall. intros g Hg w Hw. apply Hin. eapply tape_wires_ops; eauto.
@@ -525,3 +576,24 @@ Qed.
 
 Lemma tok_H3 a b s : tok_sem (mkswap a b) s = transp a b s.
 Proof. reflexivity. Qed.
+
+(* the line 0-1-2 with a correct oracle *)
+Definition line3 : list (Z * Z) := [(0, 1); (1, 2)].
+Definition sp3 (_ : nat) (a b : Z) : list Z :=
+  if (a =? 0) && (b =? 2) then [0; 1; 2] else if (a =? 2) && (b =? 0) then [2; 1; 0] else [a; b].
+
+Lemma line3_ok :
+  connected line3 /\ oracle_correct line3 sp3 /\
+  transpile line3 sp3 [(10, [0; 2]); (10, [2; 0])] [[2; 0]] [] =
+    Ok [(0, [1; 2]); (10, [0; 1]); (10, [1; 0])] [[1; 0]] [0; 1] [(1, 2)] 1%nat.
+Proof.
+  assert (Hs : forall k a b, In a (nodes line3) -> In b (nodes line3) -> a <> b ->
+                             valid_path line3 a b (sp3 k a b) = true).
+  { intros k a b Ha Hb Hab. simpl in Ha, Hb.
+    repeat (destruct Ha as [<- | Ha]); try contradiction;
+      repeat (destruct Hb as [<- | Hb]); try contradiction; try congruence; reflexivity. }
+  split; [|split].
+  - intros a b Ha Hb Hab. exists (sp3 0%nat a b). apply Hs; assumption.
+  - intros k a b [p Hp]. destruct (valid_path_endpoints _ _ _ _ Hp) as [Ha [Hb Hab]]. apply Hs; assumption.
+  - vm_compute. reflexivity.
+Qed.
